@@ -19,6 +19,7 @@ struct PropDef {
 	level: &'static str,
 	run: fn(&Ctx) -> HResult<()>,
 	replay: fn(&Ctx, &str, &serde_json::Value) -> PResult,
+	part: Option<PartFn>,
 }
 
 fn props() -> Vec<PropDef> {
@@ -29,13 +30,23 @@ fn props() -> Vec<PropDef> {
 				level: $lvl,
 				run: props::$m::run,
 				replay: props::$m::replay,
+				part: None,
+			}
+		};
+		($id:expr, $lvl:expr, $m:ident, part) => {
+			PropDef {
+				id: $id,
+				level: $lvl,
+				run: props::$m::run,
+				replay: props::$m::replay,
+				part: Some(props::$m::part),
 			}
 		};
 	}
 	vec![
-		p!("C01", "exploration", c01),
-		p!("C02", "exploration", c02),
-		p!("C03", "exploration", c03),
+		p!("C01", "exploration", c01, part),
+		p!("C02", "exploration", c02, part),
+		p!("C03", "exploration", c03, part),
 		p!("C04", "exploration", c04),
 		p!("C05", "exploration", c05),
 		p!("C06", "exploration", c06),
@@ -78,6 +89,17 @@ fn main() {
 	}
 	install_panic_hook();
 	if args[1] == "child" {
+		if args[2] == "pbt" && args.len() >= 9 {
+			// gv child pbt <ID> <part> <tier> <seed> <cases> <outfile>
+			let defs = props();
+			let def = defs.iter().find(|d| d.id == args[3]).expect("property");
+			let tier = if args[5] == "thorough" { Tier::Thorough } else { Tier::Quick };
+			let seed: u64 = args[6].parse().expect("seed");
+			let cases: u32 = args[7].parse().expect("cases");
+			let ctx = Ctx::new(&args[3], tier, seed, root_dir(), def.level);
+			let code = child_pbt(&ctx, def.part.expect("part fn"), &args[4], seed, cases, std::path::Path::new(&args[8]));
+			std::process::exit(code);
+		}
 		std::process::exit(engine::worker::child_main(&args[2..]));
 	}
 	let id = args[1].to_uppercase();
